@@ -243,6 +243,25 @@ impl<'a> Hist<'a> {
         })
     }
 
+    /// A wait on the pair's handle (hook H9): like `op_send` up to obtaining the handle, then the caller gives its manager
+    /// reference up and waits on the handle alone - the only kind of waiter during which the manager can be dropped.
+    pub fn op_handle_wait(&mut self, pair: Pair) -> ActorId {
+        let (mgr, out, sim) = (self.mgr(), self.handouts.clone(), self.sim.clone());
+        let caller = self.callers;
+        self.callers += 1;
+        let t_call_ns = self.sim.now_ns();
+        self.sim.log(format!("handle_wait c{caller} ->{}", pair.1));
+        self.sim.spawn("caller", async move {
+            let fut = scion_stack::path::manager::verif_shim::handle_wait(&mgr, pair.0, pair.1);
+            drop(mgr);
+            let res = match fut.await {
+                Ok(p) => HandRes::Path(p),
+                Err(e) => HandRes::Err(e.chars().take(60).collect()),
+            };
+            out.lock().unwrap().push(Handout { caller, kind: "handle", pair, t_ns: sim.now_ns(), t_call_ns, step: sim.with(|s| s.steps), res });
+        })
+    }
+
     pub fn op_try_send(&mut self, pair: Pair) -> ActorId {
         let (mgr, out, sim) = (self.mgr(), self.handouts.clone(), self.sim.clone());
         let caller = self.callers;
@@ -499,6 +518,15 @@ impl<'a> Hist<'a> {
 
     pub fn settle_and_check(&mut self, max_steps: u64) -> RunResult2 {
         if !self.sim.settle(max_steps) {
+            // Who is still running? A worker of the manager that takes step after step at one virtual instant never
+            // suspends: it neither sleeps towards its next re-attempt nor issues one, so the re-attempt never comes.
+            let r = self.sim.runnable();
+            if !r.is_empty() && r.iter().all(|a| self.sim.actor_name(*a) == "path-set") {
+                return Err((
+                    "C06/refetch-too-late/worker-spins".into(),
+                    format!("worker actor#{} keeps running at a fixed instant ({} steps, now at {}) without suspending or issuing a lookup: its next re-attempt never happens", r[0], max_steps, self.sim.actor_at(r[0])),
+                ));
+            }
             return Err(("harness/step-budget".into(), "actors still runnable after the step budget".into()));
         }
         if let Some((id, name, msg)) = self.sim.take_panic() {
